@@ -77,7 +77,7 @@ func runC05(c *Ctx) {
 		}
 		fo := &flowOpts{through: through}
 		a0 := cc[0].Common().Args[0]
-		slots := cc[0].Common().Args[1]
+		slots := livePhiValue(cc[0].Common().Args[1], cc[0].Block())
 		c.check(derivesAll(a0, isDC, fo), "same-compose", relName(k.config)+"#compose-defaults", cc[0].Pos(),
 			"Config composes from the deep copy of the caller's defaults", "Config's compose call does not start from the deep copy of the defaults")
 		// the go statement
@@ -91,7 +91,7 @@ func runC05(c *Ctx) {
 			okD, okS := false, false
 			var first *ssa.Call
 			for _, a := range args {
-				if sameValue(a, slots) {
+				if sameValue(livePhiValue(a, e.Site.Block()), slots) {
 					okS = true
 				}
 				if _, isPtr := a.Type().Underlying().(*types.Pointer); isPtr {
